@@ -281,6 +281,52 @@ impl Table {
     }
 }
 
+// ---------------------------------------------------------------------------------------------------------------------
+// TraceOodFrame::to_trace_states / hash (C04): what the coin absorbs for the out-of-domain trace frame is the hash of ALL its
+// evaluations - current / next interleaved per column, followed by the Lagrange kernel frame's values when there is one.
+pub struct Dg(pub u64);
+pub uninterp spec fn hash_elements_of(v: Seq<T>) -> Dg;
+pub struct HH;
+impl HH {
+    #[verifier::external_body]
+    pub fn hash_elements(v: &Vec<T>) -> (r: Dg) ensures r == hash_elements_of(v@) { unimplemented!() }
+}
+impl LagrangeKernelEvaluationFrame {
+    #[verifier::external_body]
+    pub fn inner(&self) -> (r: &[T]) ensures r@ == self.frame@ { unimplemented!() }
+}
+#[verifier::external_body]
+pub fn slice_to_vec_t(s: &[T]) -> (r: Vec<T>) ensures r@ == s@ { s.to_vec() }
+pub open spec fn interleave(a: Seq<T>, b: Seq<T>) -> Seq<T> { Seq::new((2 * a.len()) as nat, |i: int| if i % 2 == 0 { a[i / 2] } else { b[i / 2] }) }
+pub open spec fn lag_values(f: TraceOodFrame) -> Seq<T> { match f.lagrange_kernel_frame { Some(l) => l.frame@, None => Seq::<T>::empty() } }
+impl TraceOodFrame {
+    //@@ source air/src/proof/ood_frame.rs
+    //@@ extract anchor="fn to_trace_states(&self) -> (Vec<E>, Vec<E>)"
+    //@@ rewrite "let mut main_and_aux_frame_states = Vec::new();" => "let mut main_and_aux_frame_states: Vec<T> = Vec::new();"
+    //@@ rewrite "lagrange_kernel_frame.inner().to_vec()" => "slice_to_vec_t(lagrange_kernel_frame.inner())"
+    //@@ itername 1 it
+    //@@ loop 1
+    //@@|            invariant
+    //@@|                it.iter.end == self.current_row.len(), self.current_row.len() == self.next_row.len(),
+    //@@|                main_and_aux_frame_states.len() == 2 * col,
+    //@@|                forall|i: int| #![trigger main_and_aux_frame_states@[i]] 0 <= i < 2 * col ==> main_and_aux_frame_states@[i] == (if i % 2 == 0 { self.current_row@[i / 2] } else { self.next_row@[i / 2] }),
+    fn to_trace_states(&self) -> (r: (Vec<T>, Vec<T>))
+        requires self.current_row.len() == self.next_row.len(), self.current_row.len() <= usize::MAX / 2
+        ensures r.0@ =~= interleave(self.current_row@, self.next_row@), r.1@ == lag_values(*self)
+    {
+        /*@@body*/
+    }
+
+    //@@ extract anchor="pub fn hash<H: ElementHasher<BaseField = E::BaseField>>(&self) -> H::Digest"
+    //@@ rewrite "H::hash_elements(" => "HH::hash_elements("
+    pub fn hash(&self) -> (r: Dg)
+        requires self.current_row.len() == self.next_row.len(), self.current_row.len() <= usize::MAX / 2
+        ensures r == hash_elements_of(interleave(self.current_row@, self.next_row@) + lag_values(*self))
+    {
+        /*@@body*/
+    }
+}
+
 proof fn oodv_canary_must_fail(b: Seq<u8>)
     requires trace_ok(b, 1)
     ensures b.len() == 1
